@@ -403,7 +403,12 @@ coap_oscore_new_pdu_encrypted_lkd(coap_session_t *session,
      * Get the Sender Context
      */
     association = oscore_find_association(session, &pdu_token);
-    if (association == NULL)
+    /*
+     * An association that was set up (or taken over) by a request sent from
+     * this end holds the nonce that request was protected with: it must never
+     * protect a response as well.
+     */
+    if (association == NULL || association->is_client)
       goto error;
 
     rcp_ctx = association->recipient_ctx;
@@ -732,6 +737,7 @@ coap_oscore_new_pdu_encrypted_lkd(coap_session_t *session,
     association = oscore_find_association(session, &pdu_token);
     if (association) {
       /* The association now belongs to this request */
+      association->is_client = 1;
       association->is_observe = doing_observe && observe_value != 1;
       /* Refresh the association */
       coap_delete_bin_const(association->nonce);
@@ -764,15 +770,19 @@ coap_oscore_new_pdu_encrypted_lkd(coap_session_t *session,
       } else {
         association->sent_pdu = NULL;
       }
-    } else if (!oscore_new_association(session,
-                                       pdu,
-                                       &pdu_token,
-                                       rcp_ctx,
-                                       &cose->aad,
-                                       &cose->nonce,
-                                       &cose->partial_iv,
-                                       doing_observe)) {
-      goto error;
+    } else {
+      if (!oscore_new_association(session,
+                                  pdu,
+                                  &pdu_token,
+                                  rcp_ctx,
+                                  &cose->aad,
+                                  &cose->nonce,
+                                  &cose->partial_iv,
+                                  doing_observe))
+        goto error;
+      association = oscore_find_association(session, &pdu_token);
+      if (association)
+        association->is_client = 1;
     }
     session->done_b_1_2 = 1;
   }
@@ -1457,6 +1467,8 @@ coap_oscore_decrypt_pdu(coap_session_t *session,
       if (association->aad == NULL)
         goto error;
       association->recipient_ctx = rcp_ctx;
+      /* The association now belongs to the request received */
+      association->is_client = 0;
     } else if (!oscore_new_association(session,
                                        NULL,
                                        &pdu_token,
